@@ -607,17 +607,53 @@ let predict_set (f : string list) (obs : string) : string * string * bool =
       (pred, v, true)
   | _ -> ("unknown-case", "BAD:unknown-case", false)
 
-let predict (c : string) (obs : string) : string * string * bool =
-  if String.length c > 5 && String.sub c 0 5 = "nest " then predict_nest (split_blank c) obs else
-  if String.length c > 5 && String.sub c 0 5 = "hook " then predict_hook (split_blank c) obs else
-  if String.length c > 6 && String.sub c 0 6 = "hookn " then predict_hookn (split_blank c) obs else
-  if String.length c > 5 && String.sub c 0 5 = "kind " then predict_kind (split_blank c) obs else
-  if String.length c > 5 && String.sub c 0 5 = "conc " then predict_conc (split_blank c) obs else
-  if String.length c > 4 && String.sub c 0 4 = "sec " then predict_sec (split_blank c) obs else
-  if String.length c > 4 && String.sub c 0 4 = "reg " then predict_reg (split_blank c) obs else
-  if String.length c > 4 && String.sub c 0 4 = "set " then predict_set (split_blank c) obs else
+(* ftype cases: which Go types are requested factory forms *)
+let gotype_of = function
+  | "f0" | "g0" -> Some { gt_func = true; gt_in = O; gt_outs = [TyIface O] }
+  | "f1" | "g1" -> Some { gt_func = true; gt_in = O; gt_outs = [TyIface O; TyError] }
+  | "impl" -> Some { gt_func = true; gt_in = O; gt_outs = [TyOther] }
+  | "int2" -> Some { gt_func = true; gt_in = O; gt_outs = [TyIface O; TyOther] }
+  | "in1" -> Some { gt_func = true; gt_in = S O; gt_outs = [TyIface O] }
+  | "in1e" -> Some { gt_func = true; gt_in = S O; gt_outs = [TyIface O; TyError] }
+  | "three" -> Some { gt_func = true; gt_in = O; gt_outs = [TyIface O; TyError; TyError] }
+  | "none" -> Some { gt_func = true; gt_in = O; gt_outs = [] }
+  | "notfunc" | "iface" -> Some { gt_func = false; gt_in = O; gt_outs = [] }
+  | "err0" -> Some { gt_func = true; gt_in = O; gt_outs = [TyError] }
+  | "err1" -> Some { gt_func = true; gt_in = O; gt_outs = [TyError; TyError] }
+  | "other0" -> Some { gt_func = true; gt_in = O; gt_outs = [TyIface (S O)] }
+  | "other1" -> Some { gt_func = true; gt_in = O; gt_outs = [TyIface (S O); TyError] }
+  | "errfirst" -> Some { gt_func = true; gt_in = O; gt_outs = [TyError; TyIface O] }
+  | _ -> None
+
+let predict_ftype (f : string list) (obs : string) : string * string * bool =
+  match f with
+  | ["ftype"; t; registered; name] ->
+      (match gotype_of t with
+       | None -> ("unknown-case", "BAD:unknown-case", false)
+       | Some gt ->
+           let content = (if registered = "1" then [(O, [O])] else []) in
+           let n = (if name = "x" then O else S O) in
+           let s_k = function Some (TyIface O) -> "1:I" | Some (TyIface _) -> "1:O" | Some TyError -> "1:E" | Some TyOther -> "1:?" | None -> "0:-" in
+           let s_fq = function FqPanic -> "panic" | FqLookupErr -> "err:lookup" | FqReaches _ -> "ok" in
+           (* the model, as the code goes *)
+           let pred = Printf.sprintf "fpt=%s lookup=%s nf=%s" (s_k (factory_plugin_type gt))
+                        (if lookup_factory content gt then "1" else "0") (s_fq (new_factory_request content gt n)) in
+           (* the specification: the two factory forms (C18_factory_forms, C18_factory_request) *)
+           let form = factory_form gt in
+           let type_known = (match form with Some (TyIface p, _) -> List.exists (fun (t, _) -> t = p) content | _ -> false) in
+           let want = Printf.sprintf "fpt=%s lookup=%s nf=%s" (s_k (match form with Some (k, _) -> Some k | None -> None))
+                        (if type_known then "1" else "0")
+                        (match form with
+                         | None -> "panic"
+                         | Some (TyIface p, _) -> if registered_b content p n then "ok" else "err:lookup"
+                         | Some _ -> "err:lookup") in
+           (pred, verdict (obs = want) "a Go type is not treated by FactoryPluginType / LookupFactory / NewFactory as the factory forms func() P, func() (P, error) say", true))
+  | _ -> ("unknown-case", "BAD:unknown-case", false)
+
+let predict_plain (c : string) (obs : string) : string * string * bool =
   let (cs, o) = case_of (split_blank c) in
   let pred = s_obs (canon_obs (run_case cs o)) in
+
   let v =
     match p_obs obs with
     | ob ->
@@ -631,5 +667,28 @@ let predict (c : string) (obs : string) : string * string * bool =
   (* non-trivial: a config is involved or some user code fails, and at least one product or error exists *)
   let nt = (cs.cs_shape.sh_cfg <> NoCfg || String.length c > 0 && not (String.length c >= 6 && String.sub c (String.length c - 6) 6 = " - - -")) && int_of_nat cs.cs_k > 0 in
   (pred, v, nt)
+
+let predict (c : string) (obs : string) : string * string * bool =
+  if String.length c > 5 && String.sub c 0 5 = "nest " then predict_nest (split_blank c) obs else
+  if String.length c > 5 && String.sub c 0 5 = "hook " then predict_hook (split_blank c) obs else
+  if String.length c > 6 && String.sub c 0 6 = "hookn " then predict_hookn (split_blank c) obs else
+  if String.length c > 5 && String.sub c 0 5 = "kind " then predict_kind (split_blank c) obs else
+  if String.length c > 5 && String.sub c 0 5 = "conc " then predict_conc (split_blank c) obs else
+  if String.length c > 4 && String.sub c 0 4 = "sec " then predict_sec (split_blank c) obs else
+  if c = "reg setdefault N" then begin
+    (* plugin.SetDefaultRegistry: package-level Register / New on the registry that was set; judged as the plain case *)
+    let suffix = " ; default=1 old=err:lookup" in
+    let ls = String.length suffix and lo = String.length obs in
+    let plain = "c18 P P 1 0 V M N 1 1 - - -" in
+    if lo > ls && String.sub obs (lo - ls) ls = suffix then
+      let (p, v, nt) = predict_plain plain (String.sub obs 0 (lo - ls)) in (p ^ suffix, v, nt)
+    else
+      let (p, _, nt) = predict_plain plain obs in
+      (p ^ suffix, "BAD:after SetDefaultRegistry the package-level functions do not work on the registry that was set", nt)
+  end else
+  if String.length c > 4 && String.sub c 0 4 = "reg " then predict_reg (split_blank c) obs else
+  if String.length c > 6 && String.sub c 0 6 = "ftype " then predict_ftype (split_blank c) obs else
+  if String.length c > 4 && String.sub c 0 4 = "set " then predict_set (split_blank c) obs else
+  predict_plain c obs
 
 let () = run_cases predict
